@@ -584,7 +584,10 @@ def _icc_to_dict(field_data):
 
         field_length_raw = field_data[field_pointer:field_pointer+1]
         LOGGER.debug(f"{field_length_raw=}")
-        field_length = struct.unpack(">B", field_length_raw)[0]
+        try:
+            field_length = struct.unpack(">B", field_length_raw)[0]
+        except struct.error as ex:
+            raise Iso8583DataError('Invalid ICC tag length', binary_context_data=field_data, original_exception=ex)
 
         LOGGER.debug("%s", format(field_tag_display))
         LOGGER.debug(field_length)
